@@ -202,6 +202,24 @@ class Engine:
             lv = self._live[body.path] = Liveness(body)
         return lv
 
+    def mut_borrowed(self, body):
+        mb = getattr(body, "_mutb", None)
+        if mb is None:
+            mb = set()
+            for blk in body.blocks:
+                for st in blk["s"]:
+                    rv = st.get("rv")
+                    if rv and rv["k"] in ("ref", "raw") and rv.get("m"):
+                        pl = rv["pl"]
+                        if isinstance(pl, int) or "*" not in pl["p"]:
+                            mb.add(pl_local(pl))
+            try:
+                body._mutb = mb
+            except AttributeError:
+                self._mutb_cache = getattr(self, "_mutb_cache", {})
+                self._mutb_cache[body.path] = mb
+        return mb
+
     def origins(self, body):
         o = self._orig.get(body.path)
         if o is None:
@@ -444,19 +462,41 @@ class Engine:
             elif k == "switch":
                 ov = self.eval_op(body, val, t["op"])
                 l = op_local(t["op"])
+                pk = None
+                if not isinstance(ov, int) and l is not None:
+                    pk = self._pred_key(body, l)
+                    if pk is not None and pk[0] in val:
+                        ov = val[pk[0]] ^ pk[1]
                 if isinstance(ov, int):
                     hit = [tg for v, tg in t["ts"] if int(v) == ov]
                     outs.append((vec, val, hit[0] if hit else t["else"]))
                 else:
+                    is_bool = l is not None and len(t["ts"]) == 1 and int(t["ts"][0][0]) == 0 and body.locals[l] == "bool"
+                    srcs = self._copy_sources(body, l) if l is not None else []
                     for v, tg in t["ts"]:
                         nv = dict(val)
                         if l is not None:
                             nv[l] = int(v)
+                            for m in srcs:
+                                nv[m] = int(v)
+                            if pk is not None and is_bool:
+                                nv[pk[0]] = int(v) ^ pk[1]
                         outs.append((vec, nv, tg))
                     nv = dict(val)
-                    if l is not None and len(t["ts"]) == 1 and int(t["ts"][0][0]) == 0 and body.locals[l] == "bool":
+                    if is_bool:
                         nv[l] = 1
+                        for m in srcs:
+                            nv[m] = 1
+                        if pk is not None:
+                            nv[pk[0]] = 1 ^ pk[1]
                     outs.append((vec, nv, t["else"]))
+                # let the spec observe which edge is taken
+                if hasattr(self.spec, "edge_event"):
+                    outs2 = []
+                    for (nvec, nval, nb) in outs:
+                        d = self.spec.edge_event(self, body, bi, nb)
+                        outs2.append((self.spec.add(nvec, d) if d is not None else nvec, nval, nb))
+                    outs = outs2
             elif k == "call":
                 if t["to"] is None:
                     continue
@@ -474,7 +514,8 @@ class Engine:
                                 nv.pop(av[1], None)
                             # a closure (or aggregate) carrying references: whatever it captured may be written
                             for r in _nested_refs(av):
-                                nv.pop(r, None)
+                                if r in self.mut_borrowed(body):
+                                    nv.pop(r, None)
                     if "dest" in t:
                         d = t["dest"]
                         if isinstance(d, int):
@@ -489,7 +530,7 @@ class Engine:
                 continue
             for (nvec, nval, nb) in outs:
                 live = lv.live_in[nb]
-                pruned = {l: v for l, v in nval.items() if l in live or l in keep_always}
+                pruned = {l: v for l, v in nval.items() if isinstance(l, tuple) or l in live or l in keep_always}
                 st.append(((nb, nvec, self._freeze(pruned)), state))
         if len(seen) > len(body.blocks):
             self.nontrivial.add((body.path, V))
@@ -497,6 +538,86 @@ class Engine:
 
     def _retval(self, v):
         return v
+
+    def _stable_root(self, body, l, depth=0):
+        """root local of a copy chain if it cannot change (parameter or single plain definition, never borrowed mutably)"""
+        for _ in range(8):
+            if l is None or l in self.mut_borrowed(body):
+                return None
+            ds = body.defs().get(l, [])
+            if not ds:
+                return l if 1 <= l <= body.argc else None
+            if len(ds) != 1:
+                return None
+            d = ds[0]
+            if d[2] == "assign" and d[3]["k"] == "use":
+                p = op_place(d[3]["a"])
+                if p is None:
+                    return None
+                if isinstance(p, int):
+                    l = p
+                    continue
+                return l
+            return l
+        return None
+
+    def _copy_sources(self, body, l):
+        """bare locals that `l` is a plain copy of (so that learning l's value teaches theirs)"""
+        out = []
+        for _ in range(4):
+            if l is None:
+                break
+            d = body.single_def(l)
+            if not (d and d[2] == "assign" and d[3]["k"] == "use"):
+                break
+            p = op_place(d[3]["a"])
+            if not isinstance(p, int) or p in self.mut_borrowed(body):
+                break
+            nd = body.defs().get(p, [])
+            if len(nd) > 1:
+                break
+            out.append(p)
+            l = p
+        return out
+
+    def _pred_key(self, body, l):
+        """canonical key of a comparison feeding the boolean switch local `l`: (key, negated)"""
+        neg = 0
+        for _ in range(6):
+            d = body.single_def(l)
+            if not (d and d[2] == "assign"):
+                return None
+            rv = d[3]
+            if rv["k"] == "un" and rv["op"] == "Not":
+                neg ^= 1
+                l = op_local(rv["a"])
+                if l is None:
+                    return None
+                continue
+            if rv["k"] == "use" and op_local(rv["a"]) is not None:
+                l = op_local(rv["a"])
+                continue
+            if rv["k"] == "bin" and rv["op"] in ("Eq", "Ne", "Lt", "Le", "Gt", "Ge"):
+                def term(o):
+                    c = op_const(o)
+                    if c is not None:
+                        return ("c", c)
+                    r = self._stable_root(body, op_local(o)) if op_local(o) is not None else None
+                    return ("l", r) if r is not None else None
+                a, b = term(rv["a"]), term(rv["b"])
+                if a is None or b is None:
+                    return None
+                op = rv["op"]
+                # canonical: Ne = !Eq, Ge = !Lt, Le = !Gt
+                if op == "Ne":
+                    op, neg = "Eq", neg ^ 1
+                elif op == "Ge":
+                    op, neg = "Lt", neg ^ 1
+                elif op == "Le":
+                    op, neg = "Gt", neg ^ 1
+                return (("pred", op, a, b), neg)
+            return None
+        return None
 
     def visited_blocks(self, path, V):
         """blocks visited by explore(path, V)"""
@@ -527,7 +648,7 @@ class Engine:
         return res
 
     def _freeze(self, val):
-        return tuple(sorted(val.items(), key=lambda kv: kv[0]))
+        return tuple(sorted(val.items(), key=lambda kv: (isinstance(kv[0], tuple), str(kv[0]))))
 
     def _store(self, body, val, lhs, v, keep_always):
         base = lhs["l"]
